@@ -9,7 +9,7 @@
     * in-place writes (`add_`, `set_`, `update_`, `td[idx] = …`, `share_memory_` on a nested node) change
       the content of those same tensors: the memoised wrapper shows the new values;
     * a few operations permitted under lock REBIND the tensors or the metadata of a node: `memmap_()`
-      (this node and every nested node), `names = …` (idem), `batch_size = …` (this node only), and, on a
+      (this node and every nested node), `names = …` (idem), `batch_size = …` (this node only, unless it carries dim names: then like `names`), and, on a
       node without lock parents, `unlock_()` / `set` / `lock_()`.  They call `_erase_cache_up`, which
       empties the cache of the node and of every *lock parent*, transitively;
     * `lock_()` on a node makes it a lock parent of every nested node; a lazy stack over members that
@@ -146,7 +146,8 @@ def apiEvents (g : Graph) (op : String) (j : Nat) : List Ev :=
   | "inplace" => [.write j]                              -- add_, zero_, set_, update_, td[i] = …, share_memory_ (nested)
   | "memmap_" => (g.sub j).map .rebind                   -- every nested node is rebound in turn
   | "names" => (g.sub j).map .rebind                     -- names propagate to the nested nodes
-  | "batch_size" => [.rebind j]                          -- this node only
+  | "batch_size" => [.rebind j]                          -- a node without dim names: this node only
+  | "batch_size_named" => (g.sub j).map .rebind          -- a node with dim names: the setter re-assigns the cut / padded names, which walks down like `names`
   | "batch_size_same" => []                              -- assigning the current batch size returns at once
   | "refused_unlock" => (g.sub j).map .erase             -- unlock_() of a node with lock parents: refused, caches below dropped
   | "unlock_set_lock" => (g.sub j).map .erase ++ [.rebind j]   -- only reachable on a node without lock parents
